@@ -1944,7 +1944,11 @@ impl Hash for OwnedTerm {
             OwnedTerm::Port(p) => p.hash(state),
             OwnedTerm::Reference(r) => r.hash(state),
             OwnedTerm::Nil => (),
-            OwnedTerm::Float(f) => f.to_bits().hash(state),
+            OwnedTerm::Float(f) => {
+                // 0.0 == -0.0, so both must hash alike
+                let bits = if *f == 0.0 { 0u64 } else { f.to_bits() };
+                bits.hash(state)
+            }
             OwnedTerm::BigInt(big) => big.hash(state),
             OwnedTerm::BitBinary { bytes, bits } => {
                 bytes.hash(state);
